@@ -426,22 +426,17 @@ class MutableFileNode:
 
         # It is possible that the download will fail because there
         # aren't enough shares to be had. If so, we will try again after
-        # updating the servermap in MODE_WRITE, which may find more
-        # shares than updating in MODE_READ, as we just did. We can do
-        # this by getting the best mutable version and downloading from
-        # that -- the best mutable version will be a MutableFileVersion
-        # with a servermap that was last updated in MODE_WRITE, as we
-        # want. If this fails, then we give up.
+        # updating the servermap in MODE_CHECK, which asks every server
+        # and so may find more shares than updating in MODE_READ, as we
+        # just did. If this fails, then we give up.
         def _maybe_retry(failure):
             failure.trap(NotEnoughSharesError)
 
-            if self.is_readonly():
-                # get_best_mutable_version() would merely repeat the
-                # MODE_READ survey for a read-only node, so ask every
-                # server instead.
-                d = self.get_readable_version(mode=MODE_CHECK)
-            else:
-                d = self.get_best_mutable_version()
+            # Ask every server this time. (get_best_mutable_version() would
+            # repeat the MODE_READ survey for a read-only node, and its
+            # MODE_WRITE survey for a writeable one still stops at the first
+            # gap in the permuted server list.)
+            d = self.get_readable_version(mode=MODE_CHECK)
             d.addCallback(self._record_size)
             d.addCallback(lambda version: version.download_to_data())
             return d
